@@ -51,6 +51,10 @@ CHECKS = {
                 text="MCBinaryColumns.tla models collect_type_info and the per-instance value lookup with the real database as a constant; TLC checks AlwaysSucceeds / OwnValues / ColumnsExact / ExplicitWins for every subset assignment, sibling order, property-map and alias-set iteration order (and re-finds both repaired defects under the pre-fix rules). Every population (initial state) is built as a real DOM, written and read by rbx_binary, also instance by instance, and judged by BinaryFormat.tla (own values, defaults for lacking properties, success iff each instance succeeds alone).",
                 note="Exhaustive for the listed classes/spellings and 2-3 instances; other classes are reached by C01's random generators. The Font enum -> Font face table is uninterpreted.",
                 technique="TLA+ state machine of the writer's column logic (TLC) + exhaustive population replay + trace validation"),
+    "C14": dict(level="model_checking", ref="§4 C14, §2.7",
+                text="AttrWire.tla transcribes docs/attributes.md (its worked examples are ASSUMEs); TLC decodes every blob Attributes::to_writer produced for generated maps and requires the decoded entries to be the map (String as BinaryString, rotations snapped like CFrames), the reader's result to equal it, and empty map <-> zero bytes. Blobs from an independent encoder written from the document are first held to AttrWire, then must decode to the described values with the real reader. The same predicate judges the Attributes property inside binary and XML files.",
+                note="Values sampled; the envelope slot of colour keypoints is written as zero by the foreign encoder.",
+                technique="TLA+ transcription of docs/attributes.md (AttrWire.tla) + trace validation + independent encoder"),
     "C15": dict(level="model_checking", ref="§4 C15, §2.5-2.6",
                 text="For every Migrate descriptor of the exported database, every legacy value (all Enum.Font items, all BrickColor numbers, both booleans, URIs) and {legacy only, legacy + explicit new}, the four paths (binary write, XML write, binary read, XML read; read paths in both chunk/element orders) are executed and TLC evaluates MigIssues: legacy name absent, new property present, value = the specified migration (colour table, inset enum, content URI; Font uninterpreted), explicit value wins, all paths agree. The writer's alias choice is also model-checked (MCBinaryColumns: ExplicitWins).",
                 note="Quick tier strides over the BrickColor numbers; thorough is exhaustive over the database's tables.",
